@@ -504,7 +504,9 @@ func (e *Executor) LoadDependencyOutputs(
 		)
 		loadErr := e.registry.LoadOutputs(ctx, localDep, targetResult, progress)
 
-		if loadErr != nil || localDep.SkipsCache() {
+		// Note: a no-cache dependency has always been executed by this build already (its outputs
+		// are marked as loaded), so it must not be run a second time here.
+		if loadErr != nil {
 			logger.Debugf(
 				"%s: failed to load output for dependency %s (re-rerunning): err=%v no-cache=%t",
 				target.Label,
